@@ -163,7 +163,11 @@ fn run_one(line: &str) -> String {
         Some(SystemTime::now() + Duration::from_secs(rel.parse().unwrap()))
     } else {
         let (s, n) = f[5].split_once('.').unwrap();
-        Some(SystemTime::UNIX_EPOCH + Duration::new(s.parse().unwrap(), n.parse().unwrap()))
+        if let Some(neg) = s.strip_prefix('-') {
+            Some(SystemTime::UNIX_EPOCH - Duration::new(neg.parse().unwrap(), 0) + Duration::new(0, n.parse().unwrap()))
+        } else {
+            Some(SystemTime::UNIX_EPOCH + Duration::new(s.parse().unwrap(), n.parse().unwrap()))
+        }
     };
     let hdrs = parse_kv(f[6]).into_iter().map(|(k, v)| (HeaderName::from_bytes(k.as_bytes()).unwrap(), HeaderValue::from_bytes(&v).unwrap())).collect();
     let scripts: Vec<Vec<Ev>> = if f[7].is_empty() { vec![] } else { f[7].split('/').map(parse_script).collect() };
